@@ -5,6 +5,9 @@ import glob, json, os, subprocess, sys
 V = os.path.dirname(os.path.dirname(os.path.abspath(__file__)))
 tiers = [a for a in sys.argv[1:] if not a.startswith("--")] or ["quick"]
 props = [c["property_id"] for c in json.load(open(f"{V}/MANIFEST.json"))["checks"]]
+for a in sys.argv[1:]:
+    if a.startswith("--only="):
+        props = a.split("=", 1)[1].split(",")
 for t in tiers:
     for p in props:
         r = subprocess.run(f"VERIF_WRITE_LEDGER=1 VERIF_SEED=1 ./check {p} --tier {t}", shell=True, cwd=V, capture_output=True, text=True)
